@@ -4,9 +4,13 @@ import (
 	"crypto/sha1"
 	"encoding/hex"
 	"fmt"
+	"os"
 	"sort"
 	"strings"
 )
+
+// traceToStderr: VSIM_TRACE=1 prints every event as it happens (the only way to see the events of a run that kills its worker)
+var traceToStderr = os.Getenv("VSIM_TRACE") != ""
 
 // Item is one discrepancy produced by an oracle. Known findings are matched per item.
 type Item struct {
@@ -83,6 +87,9 @@ func (rc *RunCtx) Logf(format string, args ...any) {
 	rc.seq++
 	line := fmt.Sprintf("%05d ", rc.seq) + fmt.Sprintf(format, args...)
 	rc.hasher = append(rc.hasher, line)
+	if traceToStderr {
+		fmt.Fprintln(os.Stderr, "TRACE "+line)
+	}
 	if rc.KeepLog {
 		rc.out.Log = append(rc.out.Log, line)
 	}
@@ -93,6 +100,9 @@ func (rc *RunCtx) Seq() int { rc.seq++; return rc.seq }
 
 func (rc *RunCtx) Scenario(format string, args ...any) {
 	rc.out.Scenario = append(rc.out.Scenario, fmt.Sprintf(format, args...))
+	if traceToStderr {
+		fmt.Fprintln(os.Stderr, "TRACE scenario "+fmt.Sprintf(format, args...))
+	}
 }
 
 func (rc *RunCtx) Probe(name string) { rc.out.Probes[name]++ }
